@@ -88,8 +88,10 @@ func initSkipped(path string) bool {
 	case "os", "errors", "runtime", "syscall", "net", "reflect", "testing", "log", "os/signal", "os/exec", "os/user",
 		"net/http", "crypto/x509", "crypto/tls", "database/sql", "flag", "expvar", "net/http/pprof",
 		"runtime/pprof", "runtime/trace", "runtime/debug", "mime", "html", "html/template", "text/template",
-		"go/build", "go/token", "plugin", "internal/poll", "internal/godebug", "internal/cpu":
+		"go/build", "go/token", "plugin", "internal/poll", "internal/godebug", "internal/cpu", "encoding/asn1":
 		return true
+	case "crypto/x509/pkix": // plain tables (attributeTypeNames, well-known OIDs) needed by pkix.Name methods
+		return false
 	}
 	for _, p := range []string{"internal/", "runtime/", "vendor/", "go.uber.org/", "google.golang.org/", "github.com/prometheus/",
 		"golang.org/x/sys", "golang.org/x/net", "golang.org/x/crypto", "github.com/opentracing", "github.com/uber/",
